@@ -17,7 +17,7 @@ TReset == /\ IsEvent("reset")
           /\ used' = {} /\ nrep' = 0 /\ mu' = NoOp
           /\ pc' = [o \in Ops |-> "idle"] /\ nonce' = [o \in Ops |-> 0] /\ tries' = [o \in Ops |-> 0]
           /\ phase' = [o \in Ops |-> 1] /\ posts' = [o \in Ops |-> 0]
-          /\ budget' = [o \in Ops |-> 0] /\ phases' = [o \in Ops |-> 1]
+          /\ budget' = [o \in Ops |-> 0] /\ phases' = [o \in Ops |-> 1] /\ stopv' = [o \in Ops |-> "zero"]
           /\ lastR' = [o \in Ops |-> NoReply] /\ res' = [o \in Ops |-> NoRes]
           /\ cancelled' = [o \in Ops |-> FALSE]
           /\ bad' = FALSE /\ late' = FALSE
@@ -26,9 +26,9 @@ TReset == /\ IsEvent("reset")
 \* configuration of the recorded run: newNonce advertised?  did discovery put a nonce in the pool?
 TCfg == /\ IsEvent("cfg")
         /\ hasNonceURL' = Ev.nurl /\ pool' = 1..Ev.ip /\ nextN' = Ev.ip + 1
-        /\ UNCHANGED <<used, nrep, mu, pc, nonce, tries, phase, posts, budget, phases, lastR, res, cancelled, bad, late, ev>>
+        /\ UNCHANGED <<used, nrep, mu, pc, nonce, tries, phase, posts, budget, phases, stopv, lastR, res, cancelled, bad, late, ev>>
 
-TCall == IsEvent("call") /\ Ev.o \in Ops /\ Call(Ev.o, Ev.b, Ev.p)
+TCall == IsEvent("call") /\ Ev.o \in Ops /\ Ev.sv \in {"zero", "neg"} /\ Call(Ev.o, Ev.b, Ev.p, Ev.sv)
 THead == IsEvent("head") /\ Ev.o \in Ops /\ (HeadStart(Ev.o) \/ HeadStart2(Ev.o))
 THeadReply == /\ IsEvent("headReply") /\ Ev.o \in Ops /\ Ev.k \in HeadKinds
               /\ HeadReply(Ev.o, Ev.k)
@@ -54,7 +54,7 @@ TRet == /\ IsEvent("ret") /\ Ev.o \in Ops
         /\ phase' = [phase EXCEPT ![Ev.o] = 1] /\ posts' = [posts EXCEPT ![Ev.o] = 0]
         /\ lastR' = [lastR EXCEPT ![Ev.o] = NoReply] /\ res' = [res EXCEPT ![Ev.o] = NoRes]
         /\ cancelled' = [cancelled EXCEPT ![Ev.o] = FALSE]
-        /\ UNCHANGED <<hasNonceURL, nextN, used, nrep, pool, mu, budget, phases, bad, late, ev>>
+        /\ UNCHANGED <<hasNonceURL, nextN, used, nrep, pool, mu, budget, phases, stopv, bad, late, ev>>
 
 TSilent == /\ \E o \in Ops : PopPool(o) \/ AddNonce(o) \/ Clear(o)
            /\ l' = l
